@@ -24,10 +24,14 @@ type Case1 struct {
 	DoubleCheck bool       `json:"double_check"`
 	Bystanders  bool       `json:"bystanders,omitempty"`
 	CorruptVol  int        `json:"corrupt_vol,omitempty"` // 1-based volume number whose byte is flipped (0 = none)
+	DirName     string     `json:"dir_name,omitempty"`    // directory holding the set (default "w")
+	Base        string     `json:"base,omitempty"`        // index base name (default "set")
 }
 
 // Obs1 is what Run1 observed.
 type Obs1 struct {
+	dirName    string
+	base       string
 	Dir        string
 	Names      []string
 	Originals  map[string][]byte
@@ -54,7 +58,7 @@ type Obs1 struct {
 func (o *Obs1) Close() { os.RemoveAll(o.Dir) }
 
 // WorkDir is the directory of the set.
-func (o *Obs1) WorkDir() string { return filepath.Join(o.Dir, "w") }
+func (o *Obs1) WorkDir() string { return filepath.Join(o.Dir, o.dirName) }
 
 // AllOriginal reports whether all protected files equal their originals in snap.
 func (o *Obs1) AllOriginal(snap fsx.Snap) (bool, string) {
@@ -74,7 +78,14 @@ func (o *Obs1) AllOriginal(snap fsx.Snap) (bool, string) {
 func Run1(c Case1, skipRepair bool) *Obs1 {
 	o := &Obs1{Originals: map[string][]byte{}, Outputs: map[string][]byte{}}
 	o.Dir = run.Scratch("scen1")
-	dir := filepath.Join(o.Dir, "w")
+	o.dirName, o.base = "w", "set"
+	if c.DirName != "" {
+		o.dirName = c.DirName
+	}
+	if c.Base != "" {
+		o.base = c.Base
+	}
+	dir := filepath.Join(o.Dir, o.dirName)
 	os.MkdirAll(dir, 0o755)
 	for _, f := range c.Files {
 		o.Originals[f.Name] = f.Content(64)
@@ -89,7 +100,7 @@ func Run1(c Case1, skipRepair bool) *Obs1 {
 	for _, n := range o.Names {
 		paths = append(paths, filepath.Join(dir, n))
 	}
-	idx := filepath.Join(dir, "set.par")
+	idx := filepath.Join(dir, o.base+".par")
 	var err error
 	if p, msg := run.Safe(func() { err = par1.Create(idx, paths, par1.CreateOptions{NumParityFiles: c.NVol}) }); p {
 		o.CreatePan = msg
@@ -134,7 +145,7 @@ func Run1(c Case1, skipRepair bool) *Obs1 {
 		del[v] = true
 	}
 	for v := 1; v <= c.NVol; v++ {
-		p := filepath.Join(dir, fmt.Sprintf("set.p%02d", v))
+		p := filepath.Join(dir, fmt.Sprintf("%s.p%02d", o.base, v))
 		if del[v] {
 			os.Remove(p)
 			continue
@@ -185,7 +196,10 @@ func (o *Obs1) Predict1() string {
 	return "ok"
 }
 
-var names1 = []string{"a.dat", "b file.bin", "ünïcode.txt", "日本語ファイル.bin", "emoji-😀-name", "𝔘𝔫𝔦.𝔡𝔞𝔱", "UPPER.DAT", "k.k.k", "Ωmega", "x (1).y", "тест.док", "g"}
+// Bases1 are PAR1 index base names, including names that contain ".par" before the extension.
+var Bases1 = []string{"", "", "", "backup.part1", "x.par", "my.params", "a b"}
+
+var names1 = []string{"a.dat", "repl\uFFFDchar.txt", "b file.bin", "ünïcode.txt", "日本語ファイル.bin", "emoji-😀-name", "𝔘𝔫𝔦.𝔡𝔞𝔱", "UPPER.DAT", "k.k.k", "Ωmega", "x (1).y", "тест.док", "g"}
 
 // GenFiles1 draws a PAR1 file set (empty files allowed next to non-empty ones).
 func GenFiles1(t *rapid.T, maxFiles, maxBytes int) []FileSpec {
